@@ -24,18 +24,18 @@ Lemma default_is_snake : default_case default_field_case = RSnake.
 Proof. reflexivity. Qed.
 
 Lemma name_field it ra : item_ok it = true ->
-  compute_field_name default_field_case (it_ident it) (rename_of it) ra = wire_name KStruct ra it.
+  compute_field_name default_field_case (unraw (it_ident it)) (rename_of it) ra = wire_name KStruct ra it.
 Proof. intros Hok. unfold item_ok in Hok. apply andb_true_iff in Hok as [Hok _]. apply andb_true_iff in Hok as [Hid _].
   unfold compute_field_name, wire_name. destruct (rename_of it) as [v|]; [reflexivity|].
   destruct ra as [r|]; [apply apply_field_ok; exact Hid|]. rewrite default_is_snake. reflexivity. Qed.
 
-Lemma name_variant it ra : compute_variant_name (it_ident it) (rename_of it) ra = wire_name KEnum ra it.
+Lemma name_variant it ra : compute_variant_name (unraw (it_ident it)) (rename_of it) ra = wire_name KEnum ra it.
 Proof. unfold compute_variant_name, wire_name. destruct (rename_of it) as [v|]; [reflexivity|].
   destruct ra as [r|]; [|reflexivity]. cbn [is_struct]. rewrite <- apply_variant_ok. destruct r; reflexivity. Qed.
 
 Lemma name_item k it ra : item_ok it = true ->
-  (if is_struct k then compute_field_name default_field_case (it_ident it) (rename_of it) ra
-   else compute_variant_name (it_ident it) (rename_of it) ra) = wire_name k ra it.
+  (if is_struct k then compute_field_name default_field_case (unraw (it_ident it)) (rename_of it) ra
+   else compute_variant_name (unraw (it_ident it)) (rename_of it) ra) = wire_name k ra it.
 Proof. intros Hok. destruct k; cbn [is_struct]; [apply name_field; exact Hok|apply name_variant]. Qed.
 
 Lemma emit_ok k ra items :
